@@ -203,10 +203,10 @@ def extra_orders(n, tier, idx):
     """work-list orders (hash orders of the simulators) beyond the default start order"""
     sids = SIDS[:n]
     perms = [list(p) for p in itertools.permutations(sids)][1:]
-    if tier == "thorough" or n <= 2:
-        return perms
+    if n <= 2 or (tier == "thorough" and n == 3 and len(perms) <= 5 and idx % 4 == 0):
+        return perms              # all orders (thorough: for every fourth graph with n = 3)
     rev = sids[::-1]
-    # quick: the reverse order for every graph, plus one more (rotating through the rest)
+    # otherwise the reverse order for every graph, plus one more (rotating through the rest)
     rest = [p for p in perms if p != rev]
     return [rev, rest[idx % len(rest)]]
 
@@ -388,7 +388,8 @@ def check(prop, tier):
         evaluations=total, distinct_nontrivial=cyc_n,
         work_list_orders="every graph is also decided with the cycle check's work lists processed "
                          "in other orders (hash order of the simulators set by the harness): n<=2 "
-                         "all orders, n>=3 the reverse and one more (quick) / all (thorough)",
+                         "all orders, n>=3 the reverse and one more (thorough: all orders for every "
+                         "fourth graph with n=3)",
         rule="one evaluation = world.run() on one connection multigraph (canonical up to renaming "
              "of simulators); non-trivial = the reference finds an unresolved cycle (the rest are "
              "accepted scenarios, which must run to completion)",
